@@ -38,11 +38,13 @@ def stripParens (s : List Char) : List Char :=
   | none => s
 
 /-- the optional `"` on both sides of ``^\"?'(.+)'\"?$`` -/
-def dropDq (x : List Char) : List Char :=
-  let x1 := match x with
-    | '"' :: r => r
-    | _ => x
-  if x1.getLast? == some '"' then x1.dropLast else x1
+def dropLeadDq : List Char → List Char
+  | '"' :: r => r
+  | x => x
+
+def dropTrailDq (x : List Char) : List Char := if x.getLast? == some '"' then x.dropLast else x
+
+def dropDq (x : List Char) : List Char := dropTrailDq (dropLeadDq x)
 
 /-- ``re.sub(r"^\"?'(.+)'\"?$", r"\1", s)`` -/
 def stripQuotes (s : List Char) : List Char :=
@@ -55,13 +57,15 @@ def normDefault (s : List Char) : List Char := stripQuotes (stripParens s)
 
 def isDigitOrDot (c : Char) : Bool := c.isDigit || c == '.'
 
-/-- `_guess_if_default_is_unparenthesized_sql_expr` -/
+def singleDigitOrDot : List Char → Bool
+  | [c] => isDigitOrDot c
+  | _ => false
+
+/-- `_guess_if_default_is_unparenthesized_sql_expr`: the chain `if not expr / elif re.match(..) ...
+/ else True`, each test returning False -/
 def guessUnparen (e : List Char) : Bool :=
-  if e.isEmpty then false
-  else if (match core e with | [c] => isDigitOrDot c | _ => false) then false
-  else if (wrapped '\'' '\'' (core e)).isSome then false
-  else if (wrapped '(' ')' (core e)).isSome then false
-  else true
+  !e.isEmpty && !singleDigitOrDot (core e) && !(wrapped '\'' '\'' (core e)).isSome &&
+  !(wrapped '(' ')' (core e)).isSome
 
 /-- `autogen_column_reflect`: the reflected default the comparison sees -/
 def autogenReflect (stored : List Char) : List Char :=
@@ -80,12 +84,18 @@ def ddlDefault : Dflt → List Char
 def isWs (c : Char) : Bool := c == ' ' || c == '\t' || c == '\n' || c == '\r'
 def trim (s : List Char) : List Char := ((s.dropWhile isWs).reverse.dropWhile isWs).reverse
 
+/-- `e = ( m )` as SQLite's parser sees a parenthesised default expression -/
+def parenInner (e : List Char) : Option (List Char) :=
+  match e with
+  | '(' :: r => if r.getLast? == some ')' then some r.dropLast else none
+  | _ => none
+
 /-- what SQLite stores and `PRAGMA table_info` returns for `DEFAULT <text>`: the expression
 text trimmed, with one enclosing pair of parentheses removed -/
 def sqliteStore (t : List Char) : List Char :=
-  match trim t with
-  | '(' :: r => if r.getLast? == some ')' then trim r.dropLast else '(' :: r
-  | x => x
+  match parenInner (trim t) with
+  | some m => trim m
+  | none => trim t
 
 /-- `_render_server_default_for_compare` -/
 def renderMeta : Dflt → List Char
